@@ -312,6 +312,11 @@ def thorough_extras(pid, repo_root, seed, info):
         patch = os.path.join(d, "patch.diff")
         if not os.path.exists(patch):
             continue
+        try:
+            if json.load(open(os.path.join(d, "meta.json"))).get("canary") is False:
+                continue        # archived for the record only (e.g. a change that restructures a loop: the check exits 3 on it)
+        except Exception:
+            pass
         work = tempfile.mkdtemp(prefix="pyvc-canary-")
         try:
             shutil.copytree(repo_root, os.path.join(work, "repo"), ignore=shutil.ignore_patterns(".git"))
